@@ -163,7 +163,7 @@ def _callee_name(c: ast.Call) -> tuple[str, str | None] | None:
     """(helper name, receiver) for `_h(...)`, `self._h(...)`, `cls._h(...)`."""
     if isinstance(c.func, ast.Name):
         return c.func.id, None
-    if isinstance(c.func, ast.Attribute) and isinstance(c.func.value, ast.Name) and c.func.value.id in ("self", "cls"):
+    if isinstance(c.func, ast.Attribute) and isinstance(c.func.value, ast.Name):
         return c.func.attr, c.func.value.id
     return None
 
@@ -233,7 +233,7 @@ def _inline_round(tree: ast.Module, known: set[str], mentions: dict[str, int]) -
     collect(tree.body, None)
     cands: dict[str, tuple[list[ast.stmt], ast.AST, ast.ClassDef | None, str]] = {}
     for name, ds in defs.items():
-        if len(ds) != 1 or not name.startswith("_") or name.startswith("__") or name in known or mentions.get(name, 0) != 1:
+        if len(ds) != 1 or not name.startswith("_") or name.startswith("__") or name in known or not 1 <= mentions.get(name, 0) <= 4:
             continue
         body, fn, cls = ds[0]
         decos = [ast.unparse(d) for d in fn.decorator_list]
@@ -249,14 +249,15 @@ def _inline_round(tree: ast.Module, known: set[str], mentions: dict[str, int]) -
         cands[name] = (body, fn, cls, kind)
     if not cands:
         return False
-    changed = False
-
     def enclosing_functions(node: ast.AST, cls: ast.ClassDef | None):
         for st in getattr(node, "body", []):
             if isinstance(st, (ast.FunctionDef, ast.AsyncFunctionDef)):
                 yield st, cls
             elif isinstance(st, ast.ClassDef):
                 yield from enclosing_functions(st, st)
+
+    # every call site of a candidate must be a statement this pass can replace; otherwise the helper stays as it is
+    sites: dict[str, list[tuple[list[ast.stmt], ast.stmt, list[ast.stmt]]]] = {}
     for caller, ccls in list(enclosing_functions(tree, None)):
         if caller.name in cands:
             continue
@@ -264,25 +265,70 @@ def _inline_round(tree: ast.Module, known: set[str], mentions: dict[str, int]) -
         stack: list[list[ast.stmt]] = [caller.body]
         while stack:
             body = stack.pop()
-            i = 0
-            while i < len(body):
-                st = body[i]
+            for st in body:
                 repl = _try_inline(st, cands, caller, ccls, caller_locals)
                 if repl is not None:
-                    name, new_stmts = repl
-                    body[i:i + 1] = new_stmts
-                    dbody, dfn, _c, _k = cands.pop(name)
-                    dbody.remove(dfn)
-                    if not dbody:
-                        dbody.append(ast.copy_location(ast.Pass(), dfn))
-                    changed = True
-                    continue
+                    sites.setdefault(repl[0], []).append((body, st, repl[1]))
                 if not isinstance(st, (ast.FunctionDef, ast.AsyncFunctionDef, ast.ClassDef)):
                     stack.extend(_bodies(st))
-                i += 1
+    changed = False
+    for name, lst in sites.items():
+        if len(lst) != mentions.get(name, 0) or len(lst) > 4:
+            continue
+        for body, st, new_stmts in lst:
+            k = next(i_ for i_, x in enumerate(body) if x is st)
+            body[k:k + 1] = new_stmts
+        dbody, dfn, _c, _k = cands[name]
+        dbody.remove(dfn)
+        if not dbody:
+            dbody.append(ast.copy_location(ast.Pass(), dfn))
+        changed = True
     if changed:
         ast.fix_missing_locations(tree)
     return changed
+
+
+def _terminates(block: list[ast.stmt]) -> bool:
+    if not block:
+        return False
+    last = block[-1]
+    if isinstance(last, (ast.Return, ast.Raise)):
+        return True
+    if isinstance(last, ast.If):
+        return _terminates(last.body) and _terminates(last.orelse)
+    return False
+
+
+def _has_return(nodes: list[ast.stmt]) -> bool:
+    return any(isinstance(x, ast.Return) for n in nodes for x in ast.walk(n))
+
+
+def _tail_convert(stmts: list[ast.stmt], mk) -> list[ast.stmt] | None:
+    """Rewrite a statement list whose `return`s all sit in tail position of an if/else tree: `return e` -> mk(e); None if a return sits
+    inside a loop / try / with / match (not convertible)."""
+    for i, s in enumerate(stmts):
+        if not _has_return([s]):
+            continue
+        prefix = stmts[:i]
+        if isinstance(s, ast.Return):
+            return prefix + mk(s.value, s)
+        if isinstance(s, ast.If):
+            rest = stmts[i + 1:]
+
+            def branch(block: list[ast.stmt]) -> list[ast.stmt] | None:
+                if _terminates(block):
+                    return _tail_convert(block, mk) if _has_return(block) else block
+                seq = block + rest
+                if not _has_return(seq):
+                    return seq
+                return _tail_convert(seq, mk)
+            b, e = branch(s.body), branch(s.orelse)
+            if b is None or e is None:
+                return None
+            new_if = ast.copy_location(ast.If(test=s.test, body=b or [ast.copy_location(ast.Pass(), s)], orelse=e), s)
+            return prefix + [new_if]
+        return None
+    return list(stmts)
 
 
 def _bind(call: ast.Call, fn: ast.AST, kind: str, recv: str | None) -> dict[str, ast.expr] | None:
@@ -298,6 +344,8 @@ def _bind(call: ast.Call, fn: ast.AST, kind: str, recv: str | None) -> dict[str,
         binding[params[0]] = ast.Name(id=recv, ctx=ast.Load())
         params = params[1:]
     elif kind == "function" and recv is not None:
+        return None
+    elif kind == "static" and recv is None:
         return None
     if any(isinstance(a, ast.Starred) for a in call.args) or any(k.arg is None for k in call.keywords) or len(call.args) > len(params):
         return None
@@ -352,11 +400,15 @@ def _try_inline(st: ast.stmt, cands, caller, ccls, caller_locals) -> tuple[str, 
     body = [s for s in fn.body if not (isinstance(s, ast.Expr) and isinstance(s.value, ast.Constant) and isinstance(s.value.value, str))]
     if not body:
         return None
+    tail_form = False
     if form != "return":
-        # the helper must fall through: its only return (if any) is the last statement
+        # the helper must fall through: its only return (if any) is the last statement - or every return sits in tail position of an
+        # if/else tree, in which case each `return e` becomes the assignment / nothing and the tree is kept
         if any(r is not body[-1] for r in rets):
-            return None
-        if form == "assign" and not (rets and rets[0].value is not None):
+            if _tail_convert(body, lambda v, at: [ast.copy_location(ast.Pass(), at)]) is None:
+                return None
+            tail_form = True
+        if form == "assign" and not (rets and all(r.value is not None for r in rets)):
             return None
     # names: parameters assigned inside the helper or bound to non-simple arguments get a local of their own
     assigned = {n.id for n in ast.walk(fn) if isinstance(n, ast.Name) and isinstance(n.ctx, (ast.Store, ast.Del))}
@@ -375,29 +427,45 @@ def _try_inline(st: ast.stmt, cands, caller, ccls, caller_locals) -> tuple[str, 
         if v in caller_locals:
             sub[v] = ast.Name(id=f"{v}__{name.strip('_')}", ctx=ast.Load())
     new_body = [_Rename(sub).visit(copy.deepcopy(s)) for s in body]
+
+    def mk_assign(value: ast.expr | None, at: ast.AST) -> list[ast.stmt]:
+        if form == "expr":
+            return [ast.copy_location(ast.Expr(value=value), at)] if value is not None and not _pure(value) else []
+        if isinstance(st, ast.Assign):
+            return [ast.copy_location(ast.Assign(targets=copy.deepcopy(st.targets), value=value), st)]
+        return [ast.copy_location(ast.AnnAssign(target=copy.deepcopy(st.target), annotation=st.annotation, value=value, simple=st.simple), st)]
     if form == "return":
         out = pre + new_body
         if not isinstance(new_body[-1], (ast.Return, ast.Raise)):
             out.append(ast.copy_location(ast.Return(value=None), st))
+    elif tail_form:
+        conv = _tail_convert(new_body, mk_assign)
+        if conv is None:
+            return None
+        out = pre + conv
     elif form == "expr":
         if rets:
             last = new_body.pop()
-            if last.value is not None and not _pure(last.value):
-                new_body.append(ast.copy_location(ast.Expr(value=last.value), last))
+            new_body += mk_assign(last.value, last)
         out = pre + new_body
     else:
         last = new_body.pop()
-        if isinstance(st, ast.Assign):
-            asg: ast.stmt = ast.copy_location(ast.Assign(targets=copy.deepcopy(st.targets), value=last.value), st)
-        else:
-            asg = ast.copy_location(ast.AnnAssign(target=copy.deepcopy(st.target), annotation=st.annotation, value=last.value, simple=st.simple), st)
-        out = pre + new_body + [asg]
+        out = pre + new_body + mk_assign(last.value, last)
     if not out:
         out = [ast.copy_location(ast.Pass(), st)]
-    for s in out:
-        for n in ast.walk(s):
-            if not hasattr(n, "lineno") and isinstance(n, (ast.expr, ast.stmt)):
-                ast.copy_location(n, st)
+    # inlined code is positioned at the call site (the rules order constructs by position); source order inside the block is kept in the column
+    k = 0
+
+    def place(n: ast.AST) -> None:
+        nonlocal k
+        if isinstance(n, (ast.expr, ast.stmt, ast.excepthandler, ast.arg, ast.keyword, ast.match_case, ast.pattern)):
+            n.lineno = n.end_lineno = st.lineno
+            n.col_offset = n.end_col_offset = st.col_offset + k
+            k += 1
+        for c in ast.iter_child_nodes(n):
+            place(c)
+    for s_ in out:
+        place(s_)
     return name, out
 
 
